@@ -59,6 +59,8 @@ def build_store(case):
     tab = S.table(n, shuffled=case.get("shuffled", False))
     q = max(n // 4, 1) if n > 8 else 1     # window bounds scale with the table
     cols = {"time": alpha.dt64(tab["time"]), "z": np.array(tab["z"]), "lat": np.array(tab["lat"]), "lon": np.array(tab["lon"])}
+    for k in case.get("drop_axes", ()):   # a table that lacks some optional axis column
+        cols.pop(k)
     srcs = {}
     for k, sid in enumerate(case["streams"]):
         srcs[sid] = np.array(S._col((S.V, S.W, S.Z)[k % 3], n), dtype="float64")
@@ -102,6 +104,10 @@ def build_store(case):
 def item_of(tok):
     import importlib
 
+    if tok == "fn:aggregate":
+        from ioos_qc import qartod
+
+        return qartod.aggregate
     if tok.startswith("fn:"):
         return getattr(importlib.import_module("ioos_qc." + MODULE[tok[3:]]), tok[3:])
     return tok
@@ -194,10 +200,13 @@ def check_case(case):
                     vs.append(V(f"{PROP}|save|{fsig}|symptom=filtered-result-present", f"result ({sid}, {test}) should be filtered out but has a column", None, cols))
         other = [c for c in other if not any(c.endswith(safe_core(f"{sid}_{MODULE[t]}_{t}")) for (sid, t) in collected)]
         if sv["write_axes"]:
-            if sorted(axis_cols) != ["lat", "lon", "time", "z"]:
-                vs.append(V(f"{PROP}|save|symptom=axis-columns-missing", f"write_axes=True but axis columns are {axis_cols}", ["time", "z", "lat", "lon"], axis_cols))
+            want_axes = sorted(a for a in ("lat", "lon", "time", "z") if a not in case.get("drop_axes", ()))
+            if sorted(a for a in axis_cols if a in want_axes) != want_axes:
+                vs.append(V(f"{PROP}|save|symptom=axis-columns-missing", f"write_axes=True but axis columns are {axis_cols}", want_axes, axis_cols))
             else:
                 for name, key in (("z", "z"), ("lat", "lat"), ("lon", "lon")):
+                    if name not in want_axes:
+                        continue
                     got = df[name].tolist()
                     if any(cv and got[i] != tab[key][i] for i, cv in enumerate(covered)):
                         vs.append(V(f"{PROP}|save|ctx={case['ctx']}|symptom=axis-column-values:{name}", f"axis column {name} is {got}, source {tab[key]}", tab[key], got))
@@ -216,6 +225,13 @@ def check_case(case):
                 ok = any(all((not cv) or df[c].tolist()[i] == srcs[sid][i] for i, cv in enumerate(covered)) for c in other)
                 if not ok:
                     vs.append(V(f"{PROP}|save|ctx={case['ctx']}|symptom=data-column-values", f"no data column equals the source of stream {sid!r} on covered rows", srcs[sid].tolist(), {c: df[c].tolist() for c in other}))
+        if case.get("aggregate") and (sv["include"] is not None or sv["exclude"] is not None):
+            # the roll-up is itself a result: test name "rollup", function qartod.aggregate - filters apply to it by either
+            hit = lambda lst: any(t in ("rollup", "fn:aggregate") for t in lst)
+            want_roll = (sv["include"] is None or hit(sv["include"])) and not (sv["exclude"] is not None and hit(sv["exclude"]))
+            if want_roll != bool(roll):
+                vs.append(V(f"{PROP}|save|{fsig}|symptom=rollup-column-{'missing' if want_roll else 'not-filtered-out'}",
+                            f"save(include={sv['include']}, exclude={sv['exclude']}) {'lacks' if want_roll else 'still has'} the roll-up column", want_roll, roll))
         if case.get("aggregate") and sv["include"] is None and sv["exclude"] is None:
             exp = R.aggregate([[v for v in flags] for flags in collected.values()])
             if len(roll) != 1:
@@ -268,6 +284,11 @@ def save_variants(streams, tests):
     for a in pool:
         for b in pool:
             out.append(dict(write_data=True, write_axes=False, include=[a], exclude=[b]))
+    for tok in ("fn:aggregate", "rollup"):
+        out.append(dict(write_data=False, write_axes=False, include=None, exclude=[tok]))
+        out.append(dict(write_data=False, write_axes=False, include=[tok], exclude=None))
+        out.append(dict(write_data=False, write_axes=True, include=[streams[0], tok], exclude=None))
+        out.append(dict(write_data=True, write_axes=False, include=["fn:gross_range_test"], exclude=[tok]))
     return out
 
 
@@ -280,6 +301,8 @@ def tasks(tier):
     for ss in sets:
         for tests in (["gross_range_test"], ["spike_test"], ["gross_range_test", "spike_test"], ["valid_range_test", "gross_range_test"]):
             ts.append(("store", n, ss, tests))
+    for drop in (["z"], ["lat", "lon"], ["z", "lat"]):
+        ts.append(("store_drop", 5, ["v1", "2x"], ["gross_range_test", "spike_test"], drop))
     for ss in (["v1"], ["2x", "a b"]):
         ts.append(("store", 30, ss, ["gross_range_test", "spike_test"]))
         ts.append(("store", 300, ss, ["gross_range_test", "spike_test"]))
@@ -293,6 +316,17 @@ def tasks(tier):
 
 
 def run_task(task, acc):
+    if task[0] == "store_drop":
+        _, n, ss, tests, drop = task
+
+        def gen_d():
+            for ctx in CTX_KINDS:
+                for agg in (False, True):
+                    svs = save_variants(ss, tests)
+                    svs = svs[:4] + [dict(write_data=True, write_axes=True, include=[ss[0]], exclude=None), dict(write_data=False, write_axes=True, include=None, exclude=["spike_test"])]
+                    yield dict(n=n, streams=ss, tests=tests, ctx=ctx, aggregate=agg, saves=svs, drop_axes=drop)
+        run_cases(acc, gen_d(), check_case)
+        return
     if task[0] == "store":
         _, n, ss, tests = task
 
